@@ -1139,11 +1139,10 @@ func (ds *AnySource) StopTriggerCoupling() error {
 	return ds.broker.StopTriggerCoupling()
 }
 
-func (ds *AnySource) writeNPZData(file *os.File, ab dataBlock) error {
+func (ds *AnySource) writeNPZData(file *os.File, ab dataBlock, channelNames []string) error {
 	wz := npz.NewWriter(file)
 	defer wz.Close()
 
-	channelNames := ds.ChannelNames()
 	firstFrame := make([]int64, len(ab.segments))
 	for i, stream := range ab.segments {
 		data := stream.rawData
@@ -1181,6 +1180,9 @@ func (ds *AnySource) ArchiveDataBlock(N int, file *os.File, finalName string) er
 	ds.archiveBlock.segments = nil
 	complete := make(chan dataBlock, 1)
 	ds.archiveBlock.complete = complete
+	// The file is written by another goroutine, possibly while the source is being restarted and its
+	// channel names rebuilt: give that goroutine its own copy of the names.
+	channelNames := append([]string(nil), ds.ChannelNames()...)
 	ds.archiveBlock.active = true
 
 	// Launch this goroutine, which will execute when the filled block arrives on the complete channel
@@ -1193,7 +1195,7 @@ func (ds *AnySource) ArchiveDataBlock(N int, file *os.File, finalName string) er
 			os.Remove(file.Name())
 			return
 		}
-		if err := ds.writeNPZData(file, filled); err != nil {
+		if err := ds.writeNPZData(file, filled, channelNames); err != nil {
 			file.Close()
 		}
 
